@@ -80,6 +80,34 @@ def ready_items(prop, cfg, n, seed):
     return out
 
 
+PROBE_PROPS = ('C01', 'C09', 'C17')
+
+
+def probe_smoke(prop, cfg, n, seed):
+    """Impl-presence probes (gen/pharness.py) on n random probe items."""
+    import pharness
+    return pharness.run(cfg, pharness.items(cfg, n, seed, '-%s-probe' % prop))
+
+
+def probe_directed(prop, cfg, notes, n=3000, cap=60):
+    """Probe items on which hook and model expand differently for this property."""
+    import random
+    import pharness
+    import runner
+    rng = random.Random(20260930)
+    its = [pharness.gen(rng) for _ in range(n)]
+    hook, log = runner.run_hook(cfg, ['2 ' + it.rust() for it in its], tag='-%s-pdirected' % prop)
+    if hook is None:
+        return None
+    model = runner.run_model('expand', cfg, [it.sexp() for it in its])
+    dis = [it for it, h, m in zip(its, hook, model) if h.startswith('ok') and engine.compare(prop, it, h, m) is not None]
+    notes.append('directed probe search: %d of %d probe items expand differently in %s' % (len(dis), len(its), cfg))
+    if not dis:
+        return None
+    dis.sort(key=lambda it: len(it.rust()))
+    return pharness.run(cfg, [('probe-directed', it) for it in dis[:cap]])
+
+
 def smoke(prop, cfg, limit=60, seed=20260929):
     """B on a sample of the property's pool plus random compile-ready items. Returns (report, relevant failures)."""
     items = pool(prop, limit, b_config(prop, cfg)) + ready_items(prop, b_config(prop, cfg), max(20, limit // 2), seed)
@@ -149,6 +177,14 @@ def search(prop, disagreements, notes):
     fails = filter_failures(prop, rep)
     notes.append('failing-input search: %d items, %d queries in %s, %d relevant failures' %
                  (rep['items'], rep['queries'], cfg, len(fails)))
+    if not fails and prop in PROBE_PROPS:
+        try:
+            prep = probe_directed(prop, cfg, notes)
+            if prep:
+                fails = prep['failures']
+                notes.append('directed probe search: %d probes, %d failures' % (prep['queries'], len(fails)))
+        except Exception as e:
+            notes.append('directed probe search error: %r' % (e,))
     if not fails:
         return None
     fails.sort(key=lambda f: len(f['source']))
